@@ -111,6 +111,10 @@ def gen_pair(rng, small=False, dtypes=None):
             kind = rng.choice(['i', 'f', 's', 'i', 'f', 'if'])
             pattern = rng.choice(['equal', 'overlap', 'nested', 'disjoint', 'permuted'])
             (la, ka, oa), (lb, kb, ob) = pair_labels(rng, kind, pattern, off=off)
+            if ka == 'i' and kb == 'i' and not off and rng.random() < 0.12:
+                # the first operand's labels stored in a narrow integer type, the second operand has a label beyond its range
+                sa.setdefault("ldtypes", [None] * len(da_))[da_.index(d)] = 'int16'
+                lb = list(lb) + [rng.choice([-40000, 40000])]
             sa["labels"][da_.index(d)], sa["kinds"][da_.index(d)] = la, ka
             sb["labels"][db_.index(d)], sb["kinds"][db_.index(d)] = lb, kb
             pats.append((kind, pattern, oa, ob))
